@@ -1286,6 +1286,101 @@ fn gen_disabled(rng: &mut Rng) -> (String, u64) {
     (format!("{} {} {}", facts.join(","), q, rules.join(";")), need)
 }
 
+/// dead-end family (U09; oracle clause (iv-c)): `P0 && P1 [&& P2] => G`, every conjunct derivable from the input through a chain of
+/// 1..3 rules (derivation height 2..4), and DEAD-END rules that assign a later conjunct's field (or an intermediate field of its
+/// chain) a value nobody wants TOGETHER WITH the fields of sibling conjuncts proven before (and sometimes the input / an
+/// intermediate field) — ordered BEFORE the rule that really proves that conjunct, so the sub-goal's candidate loop tries the dead
+/// end first, its check fails and its frame is rolled back: everything it overwrote has to come back, also keys that an ENCLOSING
+/// frame recorded earlier (the sibling's committed sub-proof). Returns (body, the max_depth that suffices).
+fn gen_deadend(rng: &mut Rng) -> (String, u64) {
+    let k = if rng.chance(1, 2) { 2 } else { 3 };
+    let mut conj: Vec<u64> = vec![0, 1, 2];
+    rng.shuffle(&mut conj);
+    conj.truncate(k);
+    let input = if rng.chance(3, 4) { ("F6.eq.n1", "F6=n1", "F6:=n0") } else { ("F7.eq.t", "F7=t", "F7:=f") };
+    let wrong = ["f", "n0", "sab", "s"];
+    // chain of conjunct i: length 1 (input => Pi), 2 (input => F3 => Pi) or 3 (input => F3 => F4 => Pi)
+    let lens: Vec<u64> = (0..k).map(|_| *rng.pick(&[1u64, 1, 2, 3])).collect();
+    let need = *lens.iter().max().unwrap();
+    let mut rules: Vec<String> = Vec::new();
+    let top = if k == 2 {
+        format!("&,F{}.eq.t,F{}.eq.t~F5:=t", conj[0], conj[1])
+    } else {
+        format!("&,F{}.eq.t,&,F{}.eq.t,F{}.eq.t~F5:=t", conj[0], conj[1], conj[2])
+    };
+    let top_first = rng.chance(1, 2);
+    if top_first {
+        rules.push(top.clone());
+    }
+    let mut have3 = false;
+    let mut have4 = false;
+    let mut n_dead = 0;
+    for i in 0..k {
+        // dead ends for a LATER conjunct: its field and one or more earlier siblings' fields (what the mutant of seeded C09-12 leaks)
+        if i > 0 && (rng.chance(3, 4) || (i == k - 1 && n_dead == 0)) {
+            for _ in 0..rng.range(1, 2) {
+                let mut acts = vec![format!("F{}:={}", conj[i], *rng.pick(&wrong))];
+                let mut sib: Vec<u64> = conj[..i].to_vec();
+                rng.shuffle(&mut sib);
+                for (n, s) in sib.iter().enumerate() {
+                    if n == 0 || rng.chance(1, 2) {
+                        acts.push(format!("F{}:={}", s, *rng.pick(&wrong)));
+                    }
+                }
+                if have3 && rng.chance(1, 3) {
+                    acts.push(format!("F3:={}", *rng.pick(&wrong)));
+                }
+                if rng.chance(1, 5) {
+                    acts.push(input.2.to_string());
+                }
+                if rng.chance(1, 2) {
+                    rng.shuffle(&mut acts);
+                }
+                // its own condition: the input, or an earlier sibling (then it fires only once that sibling is proven)
+                let c = if rng.chance(3, 4) { input.0.to_string() } else { format!("F{}.eq.t", conj[rng.below(i as u64) as usize]) };
+                rules.push(format!("{}~{}", c, acts.join("+")));
+                n_dead += 1;
+            }
+        }
+        match lens[i] {
+            1 => rules.push(format!("{}~F{}:=t", input.0, conj[i])),
+            2 => {
+                rules.push(format!("F3.eq.t~F{}:=t", conj[i]));
+                if !have3 {
+                    if i > 0 && rng.chance(1, 3) {
+                        // a dead end one level down: for the intermediate field, hitting a proven sibling
+                        rules.push(format!("{}~F3:={}+F{}:={}", input.0, *rng.pick(&wrong), conj[0], *rng.pick(&wrong)));
+                    }
+                    rules.push(format!("{}~F3:=t", input.0));
+                    have3 = true;
+                }
+            }
+            _ => {
+                rules.push(format!("F4.eq.t~F{}:=t", conj[i]));
+                if !have4 {
+                    rules.push("F3.eq.t~F4:=t".to_string());
+                    have4 = true;
+                }
+                if !have3 {
+                    rules.push(format!("{}~F3:=t", input.0));
+                    have3 = true;
+                }
+            }
+        }
+    }
+    if !top_first {
+        rules.push(top);
+    }
+    if rng.chance(1, 6) {
+        rng.shuffle(&mut rules); // control: the dead end is not always first
+    }
+    let mut facts = vec![input.1.to_string()];
+    if rng.chance(1, 4) {
+        facts.push(format!("F{}={}", *rng.pick(&[8u64, 9]), *rng.pick(&["t", "n1", "sab"])));
+    }
+    (format!("{} F5.eq.t {}", facts.join(","), rules.join(";")), need)
+}
+
 // ------------------------------------------------ histories on one engine (reach audit) and keyword-like field names
 
 
@@ -1809,6 +1904,15 @@ fn gen(rng: &mut Rng, n: usize, _tier: &str) -> Vec<String> {
         out.push(format!("D{}s{} {}", if rng.chance(1, 2) { d } else { rng.below(7) }, if rng.chance(1, 2) { 1 } else { 3 }, body));
         out.push(format!("B{}s1 {}", d, body));
         out.push(format!("I{}s1 {}", d, body));
+    }
+    // dead-end family (clause (iv-c)): a dead-end rule with several assignments, tried BEFORE the right rule of a later conjunct,
+    // overwrites what a sibling's committed sub-proof derived; derivation height 2..4; at the sufficient depth (ms 1 and 3),
+    // one deeper, and under the other strategies (control)
+    for _ in 0..n / 10 {
+        let (body, need) = gen_deadend(rng);
+        out.push(format!("D{}s1 {}", need, body));
+        out.push(format!("D{}s{} {}", need + rng.below(3), if rng.chance(1, 2) { 1 } else { 3 }, body));
+        out.push(format!("{}{}s1 {}", if rng.chance(1, 2) { "I" } else { "B" }, need + 1, body));
     }
     // non-Set actions family (C10 part B): Append / Retract / MethodCall on the way of failing and succeeding proofs
     for i in 0..n / 8 {
